@@ -101,6 +101,17 @@ theorem iftComplete_ftComplete {n : Nat} (hn : 0 < n) (ζ : K) (hζ : IsPrimitiv
   calc y k * dt * (n : K) * c = y k * (dt * (n : K) * c) := by ring
     _ = y k := by rw [e, mul_one]
 
+/-- **the other order**: transforming a function on the frequency axis to time and inverse-transforming gives it back
+(`get_inverse_Fourier_transform` of a function of time followed by `get_Fourier_transform` of the result, and vice versa:
+the two directions are the same index map with conjugate roots) -/
+theorem ftComplete_iftComplete {n : Nat} (hn : 0 < n) (ζ : K) (hζ : IsPrimitiveRoot ζ n) (dt c : K)
+    (hc : dt * c * (n : K) = 1) (y : Fin n → K) (k : Fin n) :
+    ftComplete ζ⁻¹ dt (iftComplete ζ c y) k = y k := by
+  have hinv : IsPrimitiveRoot ζ⁻¹ n := hζ.inv
+  have h := iftComplete_ftComplete hn ζ⁻¹ hinv c dt (by rw [← hc]; ring) y k
+  rw [inv_inv] at h
+  exact h
+
 /-! ## upper-half axes -/
 
 theorem shift_back (n h j : Nat) (hh : h < n) (hj : j < n) : ((j + h) % n + n - h) % n = j := by
